@@ -104,7 +104,7 @@ type testifyRun struct {
 	viol    *Violation
 	unroll  bool
 	resGen  *Gen
-	calls   int // completed matched calls (recorded by testify)
+	calls   int      // completed matched calls (recorded by testify)
 	callLog []string // method + content fingerprints of the arguments handed to mock.Called, per matched call
 	tags    map[string]bool
 	cleaned bool
@@ -607,6 +607,9 @@ func RunTestify(reg *Registration, cs *Case) (*Violation, RunStats) {
 	st.Steps, st.Preemptions, st.Blocks = sim.Steps, sim.Preemptions, sim.Blocks
 	st.SchedKey = fmt.Sprint(sim.Choices)
 	cs.Sched.Choices = sim.Choices
+	if sim.ForeignCalls > 0 && len(cs.Tasks) > 1 {
+		r.tags["probe:testify-calls-modelled-as-critical-sections"] = true
+	}
 	for t := range r.tags {
 		st.Tags = append(st.Tags, t)
 	}
